@@ -156,15 +156,17 @@ def run(ctx) -> None:
     # I5: the parser gets the whole listing text, once, unmodified (both routes)
     from ..matchflow import run_sequence
     Iw = match_interp(ctx.p)
-    for ft, want in (("assembly", "open("), ("binary", "subprocess.run(")):
+    for ft, want, cfg in (("assembly", "open(", {}), ("binary", "subprocess.run(", {}),
+                          ("assembly", "open(", {"sections": [".text"], "valid_addr_range": {"min": "0x1000", "max": "0x2000"},
+                                                 "style": "att", "mnemonics-full-match": True, "operands-full-match": True})):
         bad = set()
-        runs = run_sequence(Iw, [{"config": {}, "file_type": ft}])
+        runs = run_sequence(Iw, [{"config": cfg, "file_type": ft}])
         for path, facts, results in runs:
             pcs = path.run.user.get("parse_calls", [])
             exprs = [Iw.expr_of(t) for t, _, _ in pcs]
             if len(pcs) != 1 or not (exprs[0].startswith(want) and exprs[0].endswith((".read()", ".stdout"))):
                 bad.add(str(exprs)[:100])
-        ctx.check(bool(runs) and not bad, "C16.I5.whole-text-parsed-once", f"ComposableProducer.process_file[{ft}]", ";".join(sorted(bad))[:200],
+        ctx.check(bool(runs) and not bad, "C16.I5.whole-text-parsed-once", f"ComposableProducer.process_file[{ft}{', every config key set' if cfg else ''}]", ";".join(sorted(bad))[:200],
                   "the parser receives the complete listing text in one piece (no chunking, slicing or filtering of the text)")
     # I6: nothing in the parser keeps state between lines or runs
     from ..census import global_state
